@@ -146,6 +146,27 @@ func gamespecGen(r *common.Rng, n int, shard int, out *common.Out) {
 		}
 	}
 	for i := 0; i < n; i++ {
+		// one game in three starts from a position built around a rare structural coincidence (poslib.MotifPosition) and
+		// plays a few plies with raised weight on captures, king and rook moves: rights lost by captures on home squares,
+		// en passant exposing a king, promotions onto occupied corners are reached here, not in games from the start position
+		if r.Chance(1, 3) {
+			if fen, ok := poslib.MotifPosition(r); ok {
+				if p0, err := position.NewFromFen(fen); err == nil {
+					var moves []string
+					poslib.Playout(r, *p0, 1+r.Intn(6), true, func(p *position.Position, legal []move.Move, m move.Move) bool {
+						if m == move.NullMove {
+							return false
+						}
+						moves = append(moves, m.String())
+						return true
+					})
+					if len(moves) > 0 {
+						out.Line("fen %s moves %s", fen, strings.Join(moves, " "))
+						continue
+					}
+				}
+			}
+		}
 		maxPlies := r.Intn(120)
 		if r.Chance(1, 15) {
 			maxPlies = 250 + r.Intn(350)
